@@ -34,7 +34,14 @@ type tItem struct {
 
 const nsW = foreign.NSW
 
-func bodyItems(main []byte) ([]tItem, error) {
+func bodyItems(main []byte) ([]tItem, error) { return collectItems(main, false) }
+
+// cellOrderItems returns the items in the order they have when, in every table cell, the cell's own
+// paragraphs are moved before its nested tables (recursively) - what a writer that keeps a cell's
+// paragraphs and tables in two lists produces. Equal to bodyItems when no cell has a table before a paragraph.
+func cellOrderItems(main []byte) ([]tItem, error) { return collectItems(main, true) }
+
+func collectItems(main []byte, cellParasFirst bool) ([]tItem, error) {
 	root, err := canon.Parse(main)
 	if err != nil {
 		return nil, err
@@ -46,8 +53,32 @@ func bodyItems(main []byte) ([]tItem, error) {
 	if body == nil {
 		return nil, fmt.Errorf("no w:body")
 	}
+	var ts []*canon.Node
+	var walk func(n *canon.Node)
+	walk = func(n *canon.Node) {
+		if n.Is(nsW, "t") {
+			ts = append(ts, n)
+		}
+		if cellParasFirst && n.Is(nsW, "tc") {
+			for _, k := range n.Kids {
+				if !k.Is(nsW, "tbl") {
+					walk(k)
+				}
+			}
+			for _, k := range n.Kids {
+				if k.Is(nsW, "tbl") {
+					walk(k)
+				}
+			}
+			return
+		}
+		for _, k := range n.Kids {
+			walk(k)
+		}
+	}
+	walk(body)
 	var out []tItem
-	for _, t := range body.All(nsW, "t") {
+	for _, t := range ts {
 		it := tItem{Text: t.Text, Cats: map[string]bool{}}
 		var chain []string
 		for a := t.Parent; a != nil && a != body; a = a.Parent {
@@ -96,6 +127,18 @@ func bodyItems(main []byte) ([]tItem, error) {
 	return out, nil
 }
 
+func sameOrder(a, b []tItem) bool {
+	if len(a) != len(b) {
+		return false
+	}
+	for i := range a {
+		if a[i].Text != b[i].Text || a[i].Path != b[i].Path {
+			return false
+		}
+	}
+	return true
+}
+
 // explains reports whether saved can be written as the concatenation, in order, of the items that
 // remain when items of the given classes may (but need not) be dropped. whole: the concatenation must
 // be all of saved; otherwise a prefix of it.
@@ -128,34 +171,42 @@ func explains(items []tItem, saved string, whole bool, drop map[string]bool) boo
 	return pos[len(saved)]
 }
 
-// textLoss returns nil when the saved text keeps every item; otherwise the smallest set of nesting
-// classes whose loss explains the saved text, or ["other"] when none does. An item nested several
-// ways (a multi-w:t run inside a hyperlink inside a content control) can be explained by any of its
-// classes; classes in prefer (those with an open finding) are tried first, so that a loss is blamed
-// on a closed class only when the open ones cannot explain it.
-func textLoss(items []tItem, saved string, whole bool, prefer map[string]bool) []string {
-	if explains(items, saved, whole, nil) {
-		return nil
-	}
-	search := func(cats []string) []string {
-		best := []string(nil)
-		for mask := 1; mask < 1<<len(cats); mask++ {
-			drop := map[string]bool{}
-			var names []string
-			for i, c := range cats {
-				if mask&(1<<i) != 0 {
-					drop[c] = true
-					names = append(names, c)
-				}
-			}
-			if best != nil && len(names) >= len(best) {
-				continue
-			}
-			if explains(items, saved, whole, drop) {
-				best = names
+// searchDrop returns the smallest subset of cats whose loss explains saved (nil if none does).
+func searchDrop(items []tItem, saved string, whole bool, cats []string) []string {
+	best := []string(nil)
+	for mask := 1; mask < 1<<len(cats); mask++ {
+		drop := map[string]bool{}
+		var names []string
+		for i, c := range cats {
+			if mask&(1<<i) != 0 {
+				drop[c] = true
+				names = append(names, c)
 			}
 		}
-		return best
+		if best != nil && len(names) >= len(best) {
+			continue
+		}
+		if explains(items, saved, whole, drop) {
+			best = names
+		}
+	}
+	sort.Strings(best)
+	return best
+}
+
+// textLoss explains the saved text. ok: every item kept in document order. Otherwise, in this order of
+// preference: (1) every item kept, cells written with their paragraphs before their nested tables
+// (reordered = true, no class); (2) loss of nesting classes that have an open finding (prefer), in
+// document order, then with the cell reordering; (3) loss of any nesting classes, same two orders;
+// (4) ["other"]. An item nested several ways can be explained by any of its classes; trying the open
+// classes first blames a loss on a closed class only when the open ones cannot explain it.
+func textLoss(items, cellOrder []tItem, saved string, whole bool, prefer map[string]bool) (ok, reordered bool, classes []string) {
+	if explains(items, saved, whole, nil) {
+		return true, false, nil
+	}
+	hasRe := cellOrder != nil && !sameOrder(cellOrder, items)
+	if hasRe && explains(cellOrder, saved, whole, nil) {
+		return false, true, nil
 	}
 	var pref []string
 	for _, c := range allCats {
@@ -163,15 +214,17 @@ func textLoss(items []tItem, saved string, whole bool, prefer map[string]bool) [
 			pref = append(pref, c)
 		}
 	}
-	best := search(pref)
-	if best == nil {
-		best = search(allCats)
+	for _, cats := range [][]string{pref, allCats} {
+		if best := searchDrop(items, saved, whole, cats); best != nil {
+			return false, false, best
+		}
+		if hasRe {
+			if best := searchDrop(cellOrder, saved, whole, cats); best != nil {
+				return false, true, best
+			}
+		}
 	}
-	if best == nil {
-		return []string{"other"}
-	}
-	sort.Strings(best)
-	return best
+	return false, false, []string{"other"}
 }
 
 func firstOf(items []tItem, cat string) string {
